@@ -62,6 +62,9 @@ def run(ctx: Ctx):
     quantum(ctx)
     durations(ctx)
     writers(ctx)
+    # base case of "level = initial + gained - expended": both tallies of a new vehicle start at zero at every construction site
+    ctx.attempt(rules.rule_initial_tallies, ctx, "D7", {"Vehicle": ["energy_gained", "energy_expended"]})
+    ctx.attempt(rate_range, ctx)
     ctx.floor("DU.both-updates", 6)
     ctx.floor("DU.booked-equals-delta", 6)
     ctx.floor("BD.clamp", 6)
@@ -413,3 +416,80 @@ def _auto():
     from .. import autovariants as av
     return av.compare_variants(Repo(), [(BEV, "BEV.is_empty"), (ICE, "ICE.is_empty")])
 
+
+
+TPT = "nrel/hive/model/vehicle/mechatronics/powertrain/tabular_powertrain.py"
+
+
+def rate_range(ctx: Ctx):
+    """BD.rate-range — 'driving a positive distance uses a positive amount of energy' is data-dependent (the table's values), but ONE
+    structural part is not: the rate that multiplies the distance must be a value the table itself spans. np.interp holds the end
+    values outside the table (trusted); a table element is in range trivially; a hand-written interpolation is in range only where
+    the speed is clamped to / tested against the table's ends — otherwise it extrapolates, and an extrapolated rate is unbounded
+    (zero or negative for some legal table and link speed: the level rises while driving)."""
+    fn = ctx.repo.func(TPT, "TabularPowertrain.link_cost")
+    n = 0
+    for p in flow.paths(fn.node):
+        if p.kind != "return" or p.value is None:
+            continue
+        factors = []
+
+        def flat(e):
+            e = flow.core(e)
+            if isinstance(e, ast.BinOp) and isinstance(e.op, ast.Mult):
+                flat(e.left)
+                flat(e.right)
+            else:
+                factors.append(e)
+        flat(p.value)
+        rate = [f for f in factors if "consumption_energy_per_distance" in flow.dump(f)]
+        if len(rate) != 1:
+            raise AnalysisError(f"link_cost: cannot single out the per-distance rate in `{flow.dump(p.value)[:120]}`")
+        r = rate[0]
+        while isinstance(r, ast.Call) and isinstance(r.func, ast.Name) and r.func.id == "float" and len(r.args) == 1:
+            r = flow.core(r.args[0])
+        n += 1
+        d = flow.dump(r)
+        inst = "link_cost: the consumption rate is a value spanned by the powertrain's own table"
+        if isinstance(r, ast.Call) and flow.dump(r.func) in ("np.interp", "numpy.interp") and len(r.args) >= 3:
+            ok = flow.dump(r.args[1]) == "self.consumption_speed" and flow.dump(r.args[2]) == "self.consumption_energy_per_distance" and not any(k.arg in ("left", "right", "period") for k in r.keywords)
+            ctx.check(ok, "D8", "BD.rate-range", inst, fn, p.end, why_ok="np.interp over (consumption_speed, consumption_energy_per_distance): holds the end values outside the table",
+                      why_bad=f"np.interp is given other tables / end values: {d[:160]}", construct="link_cost:interp-args")
+            continue
+        if isinstance(r, ast.Subscript) and "consumption_energy_per_distance" in flow.dump(r.value):
+            ctx.ok("D8", "BD.rate-range", inst, fn, p.end, why="an element of the table")
+            continue
+        arith = any(isinstance(x, ast.BinOp) for x in ast.walk(r))
+        if arith:
+            # the speed must be boxed in by the table's ends: either clamped by min/max or tested on this path against table elements
+            names = {x.id for x in ast.walk(r) if isinstance(x, ast.Name)}
+            speed_terms = [flow.dump(x) for x in ast.walk(r) if isinstance(x, (ast.Name, ast.Attribute, ast.BinOp)) and "speed_kmph" in flow.dump(x) and "consumption" not in flow.dump(x)]
+            def _is_clamp(x):
+                # min/max applied to the speed VALUE and a row of the speed column (a clamp of the looked-up INDEX does not bound the speed)
+                if not (isinstance(x, ast.Call) and isinstance(x.func, ast.Name) and x.func.id in ("min", "max") and len(x.args) >= 2):
+                    return False
+                sp = [a for a in x.args if "speed_kmph" in flow.dump(a) and not any(isinstance(y, ast.Call) and flow.dump(y.func).split(".")[-1] in
+                      ("bisect", "bisect_right", "bisect_left", "searchsorted", "index", "len") for y in ast.walk(a) if y is not a or not _is_clamp(a))]
+                row = [a for a in x.args if isinstance(flow.core(a), ast.Subscript) and "consumption_speed" in flow.dump(flow.core(a).value)]
+                return bool(sp) and bool(row)
+            clamps = [x for x in ast.walk(r) if _is_clamp(x)]
+            clamped = any(x.func.id == "min" for x in clamps) and any(x.func.id == "max" for x in clamps)
+            lower = upper = False
+            for c in p.conds:
+                if not isinstance(c.pol, bool) or c.test is None:
+                    continue
+                for cmpn in [x for x in ast.walk(c.test) if isinstance(x, ast.Compare) and len(x.ops) == 1]:
+                    l, rr = flow.dump(cmpn.left), flow.dump(cmpn.comparators[0])
+                    if ("speed_kmph" in l and "consumption_speed" in rr) or ("speed_kmph" in rr and "consumption_speed" in l):
+                        if "[0]" in l + rr:
+                            lower = True
+                        if "[-1]" in l + rr or "len(" in l + rr:
+                            upper = True
+            ctx.check(clamped or (lower and upper), "D8", "BD.rate-range", inst, fn, p.end,
+                      why_ok="the speed is boxed in by the table's first and last row on this path",
+                      why_bad=f"the rate is computed as `{d[:140]}` with no bound on the link speed against the table's first and last row: outside the table it extrapolates, "
+                              f"so for a table that is still falling at its end a fast link costs zero or negative energy (the vehicle gains energy by driving)",
+                      construct="link_cost:extrapolates")
+            continue
+        raise AnalysisError(f"link_cost: rate `{d[:120]}` is neither np.interp over the table, a table element, nor arithmetic the rule can bound")
+    ctx.require(n >= 1, "TabularPowertrain.link_cost: no return path")
